@@ -26,8 +26,8 @@ from ..evidence import Run, canon_hash
 PID = "C06"
 SHARDS = {"quick": 8, "thorough": 16}
 SHARD_TIMEOUT = {"quick": 600, "thorough": 1700}
-N_A = {"quick": 7000, "thorough": 160000}
-N_B = {"quick": 640, "thorough": 12000}
+N_A = {"quick": 7000, "thorough": 300000}
+N_B = {"quick": 640, "thorough": 24000}
 MAX_ALL = 64
 
 K_D2 = "regex-column-name-not-restored-after-failed-validate"
@@ -438,9 +438,9 @@ def part_a(run, ctx, i):
                      "call": d["call"], "outcome": o.kind, "reasons": o.reasons[:4],
                      "n_columns": len(d["table"]["columns"])})
     for t in d["tags"]:
-        run.count("A:tag:" + t.split(":")[0] + (":" + t.split(":")[1]
-                                               if t.startswith(("arg", "cells"))
-                                               else ""))
+        run.count("A:tag:" + t.split(":")[0])
+        if t.startswith(("arg", "cells", "drop_invalid_rows", "depth")):
+            run.count("A:tag:" + t)
     run.count(f"A:backend:{backend}")
     run.count(f"A:lazy={bool(d['call'].get('lazy'))}")
     for r in set(o.reasons):
@@ -557,26 +557,26 @@ def run(run, ctx):
 def finalize(run, ctx):
     q = ctx.tier == "quick"
     run.floors.update({
-        "channel_evaluated:A:pandas": 1000 if q else 25000,
-        "channel_evaluated:A:polars": 500 if q else 12000,
-        "fault_points_enumerated": 1200 if q else 25000,
-        "check_fault_evaluated": 500 if q else 10000,
-        "other_fault_evaluated": 150 if q else 3000,
-        "state_evaluated:B": 1200 if q else 25000,
-        "B:cases_fully_enumerated": 100 if q else 2000,
-        "fault_points:pandas": 600 if q else 12000,
-        "fault_points:polars": 200 if q else 4000,
+        "channel_evaluated:A:pandas": 1000 if q else 45000,
+        "channel_evaluated:A:polars": 500 if q else 22000,
+        "fault_points_enumerated": 1200 if q else 45000,
+        "check_fault_evaluated": 500 if q else 20000,
+        "other_fault_evaluated": 150 if q else 6000,
+        "state_evaluated:B": 1200 if q else 45000,
+        "B:cases_fully_enumerated": 100 if q else 4000,
+        "fault_points:pandas": 600 if q else 22000,
+        "fault_points:polars": 200 if q else 8000,
     })
     for k in ("check_vec", "check_elem", "check_groupby", "check_frame",
               "check_frame_row", "groupby_fn", "parser", "parser_elem",
               "parser_frame", "dtype_check", "dtype_coerce"):
-        run.floors[f"fault_points:{k}"] = 8 if q else 150
+        run.floors[f"fault_points:{k}"] = 8 if q else 300
     for t in ("drop_invalid_rows", "add_missing_columns", "coerce",
               "dtype=None+coerce", "empty-rows", "no-columns",
               "duplicate-labels", "non-string-label", "regex+non-string-label",
               "retyped-column", "LazyFrame", "frame-level-check", "joint-unique",
               "depth", "arg"):
-        run.floors["A:tag:" + t] = 15 if q else 300
+        run.floors["A:tag:" + t] = 15 if q else 600
     run.extra["fault_points_enumerated"] = int(
         run.counters.get("fault_points_enumerated", 0))
     run.extra["cases_with_all_fault_points_enumerated"] = int(
